@@ -311,6 +311,34 @@ def attack_uri(rng, base):
     return rng.choice(["", "/", "/", "//", "\\", "///"]) + body
 
 
+VALID_TARGETS = [["index.html"], ["sub", "page.html"], ["sub", "deep", "leaf.html"], ["..a", "odd.html"]]
+
+
+def detour_uri(rng):
+    """a URI that resolves INSIDE the root to an existing file, spelled with detours (k names then k '..')
+    whose separators are a random mix of slash and backslash - accepted URIs whose module path must stay below
+    module_directory as well"""
+    target = rng.choice(VALID_TARGETS)
+    out = []
+    for comp in target:
+        while rng.random() < 0.6:
+            k = rng.randint(1, 3)
+            names = [rng.choice(["sub", "deep", "x", "..a"]) for _ in range(k)]
+            out.append(("name", names))
+        out.append(("comp", comp))
+    parts = []
+    for kind, v in out:
+        if kind == "comp":
+            parts.append(v)
+        else:
+            parts.extend(v)
+            parts.extend([".."] * len(v))
+    body = parts[0]
+    for s in parts[1:]:
+        body += rng.choice(["/", "\\", "/", "\\", "//", "/./"]) + s
+    return rng.choice(["", "/", "\\", "//"]) + body
+
+
 def oracle(ctx):
     from mako.lookup import TemplateLookup
     from mako.template import Template
@@ -330,6 +358,7 @@ def oracle(ctx):
                 configs.append((dirs, md))
         n = 1500 if ctx.quick else 40000
         uris = [attack_uri(ctx.rng, base) for _ in range(n)]
+        uris += [detour_uri(ctx.rng) for _ in range(n // 2)]
         # plus a slice of the exhaustive enumeration with real names substituted
         ren = {"a": "index.html", "sub": "sub", "..a": "..a", "a..": "rootx", "...": "secret.txt"}
         for u in itertools.islice(enum_uris(3), 0, None, 37 if ctx.quick else 3):
@@ -389,12 +418,22 @@ def oracle(ctx):
 
         hows = ["get", "has", "template", "/call.html", "/sub/call.html", "/sub/deep/call.html", "/ns.html",
                 "/sub/deep/ns.html", "/inh.html", "/sub/inh.html", "/api.html", "/sub/deep/api.html"]
+        seen_stray = set()
         for i, uri in enumerate(uris):
             dirs, md = configs[i % len(configs)]
             how = hows[(i // len(configs)) % len(hows)] if i % 3 else "get"
             st["cases"] += 1
             ctx.branch("oracle:how:" + (how if how in ("get", "has", "template") else "from-template"))
             bad = check_case(dirs, md, how, uri)
+            if not bad and md:
+                now = {f for f in snapshot(base) - before if not f.startswith("mods" + os.sep)} - seen_stray
+                if now:
+                    seen_stray.update(now)
+                    bad = "module file created outside module_directory: %s" % sorted(now)[:3]
+                    ctx.violation("module-file-outside-module-directory",
+                                  {"input": uri, "dirs": [os.path.relpath(d, base) for d in dirs],
+                                   "module_directory": True, "how": how, "files": sorted(now)[:3]}, bad, "oracle.tree")
+                    continue
             if bad:
                 small = shrink_str(uri, lambda u: check_case(dirs, md, how, u) is not None, 300)
                 ctx.violation("lookup-escape", {"input": small, "dirs": [os.path.relpath(d, base) for d in dirs],
@@ -403,7 +442,7 @@ def oracle(ctx):
                     break
         after = snapshot(base)
         created = {f for f in after - before}
-        stray = [f for f in created if not f.startswith("mods" + os.sep)]
+        stray = [f for f in created if not f.startswith("mods" + os.sep) and f not in seen_stray]
         ctx.stream("oracle.created_files", "oracle")["cases"] += len(created) + 1
         if stray:
             ctx.violation("module-file-outside-module-directory", {"files": sorted(stray)[:10]},
